@@ -602,8 +602,27 @@ def do_fpath(n):
     return dict(read=[rnm, rne, x.prefix.value], dec=obs, out=r)
 
 
+_AUTO_PREFIX = None
+
+
+def auto_prefix():
+    """what the live exporter writes before the counter in the name of an unnamed analysis (the property leaves the spelling
+    free; the model takes it from the regenerated table Hdl21Gen.C17Names.auto_name_prefix)"""
+    global _AUTO_PREFIX
+    if _AUTO_PREFIX is None:
+        tb = h.Module(name="AutoNameTb")
+        tb.add(h.Port(name="VSS"))
+        inp = hs.to_proto(hs.Sim(tb=tb, attrs=[D.Op(), D.Op()]))
+        names = [getattr(a, a.WhichOneof("an")).analysis_name for a in inp.an]
+        if len(names) != 2 or not names[0].endswith("0") or names[1] != names[0][:-1] + "1":
+            raise RuntimeError(f"unnamed analyses are not named <prefix><counter>: {names}")
+        _AUTO_PREFIX = names[0][:-1]
+    return _AUTO_PREFIX
+
+
 def do_autoname(n):
-    return f"Analysis{n}"
+    # CPython's decimal rendering of the counter behind the live prefix
+    return f"{auto_prefix()}{n}"
 
 
 def handler(p):
